@@ -251,6 +251,10 @@ func emptyEntryIsMiss(c *Ctx) {
 			},
 		})
 		b.H.Call = errFork(b)
+		// a helper split off the handler is interpreted in place, except the cache's own entry points
+		b.AutoInline = func(h *FuncInfo) bool {
+			return h.Pkg == fi.Pkg && !ast.IsExported(h.Decl.Name.Name) && h.Key != "disk.(*diskCache).get" && h.Key != "disk.(*diskCache).findMissingCasBlobsInternal"
+		}
 		x := NewExec(c.P.FlowOf(fi), b)
 		x.Run(newSt())
 		R.Check(n > 0, "R06g", c.Cfg+key+":decode-sites", "", "the decode of the stored entry was found", "no proto.Unmarshal into an ActionResult after a cache Get found")
